@@ -35,7 +35,7 @@ ANCHORS = [
     "acnportal.acnsim.events.stochastic_events:StochasticEvents._convert_ev_matrix",
     "acnportal.acnsim.models.battery:batt_cap_fn",
 ]
-REQUIRED = ["doc_evs_judged", "stoch_evs_judged", "fits_judged", "regime:fit-init-above-transition",
+REQUIRED = ["doc_batches_through_generate_events", "doc_evs_judged", "stoch_evs_judged", "fits_judged", "regime:fit-init-above-transition",
             "regime:fit-init-below-transition", "regime:max_len-capped", "regime:force_feasible-capped",
             "regime:doc-capacity_fn", "regime:stoch-capacity_fn", "gmm_evs_judged"]
 BUDGET_S = {"quick": 200, "thorough": 2400}
@@ -168,7 +168,20 @@ def _run_docs(case, obs):
     refused = False
     with Installed(fake):
         try:
-            evs = ae.get_evs("tok", "caltech", start, end, period, V, P, **kw)
+            if case.get("seed", 0) % 2:
+                # the public entry point: an EventQueue of plug-in events, one per session, stamped with the session's arrival
+                q_ = ae.generate_events("tok", "caltech", start, end, period, V, P, **kw)
+                obs.ev("doc_batches_through_generate_events")
+                pairs = [(ts_, e_) for ts_, e_ in q_.queue]
+                for ts_, e_ in pairs:
+                    if type(e_).__name__ != "PluginEvent" or ts_ != e_.ev.arrival or e_.timestamp != e_.ev.arrival:
+                        obs.violate("plugin_event_not_at_arrival", f"event {type(e_).__name__} at {ts_} for arrival {e_.ev.arrival}")
+                # (a heap's array order is not the order get_evs produced: pair the EVs with the documents by session id, in
+                # connection-time order, so that the per-document comparison below applies unchanged)
+                rank = {d_["sessionID"]: n_ for n_, d_ in enumerate(sorted(docs, key=lambda d_: _ts(d_["connectionTime"])))}
+                evs = [e_.ev for ts_, e_ in sorted(pairs, key=lambda x: rank.get(x[1].ev.session_id, -1))]
+            else:
+                evs = ae.get_evs("tok", "caltech", start, end, period, V, P, **kw)
         except ValueError as e:
             if case["bp"] == "fit" and ("No feasible battery size" in str(e) or "Initial Charge cannot be greater" in str(e)):
                 refused = True
